@@ -29,7 +29,7 @@ func c05Operands() []gen.Expr {
 		&gen.ENum{"0"}, &gen.ENum{"1"}, &gen.ENum{"2"}, &gen.ENum{"3"}, &gen.ENum{"7"}, &gen.ENum{"12"}, &gen.ENum{"0.5"}, &gen.ENum{"2.25"}, &gen.ENum{"100"},
 		&gen.ENum{"1000"}, &gen.ENum{"65537"}, &gen.ENum{"66536"},
 		&gen.EUn{"-", &gen.ENum{"3"}}, &gen.EUn{"-", &gen.ENum{"0.5"}}, &gen.EGroup{&gen.EUn{"-", &gen.ENum{"7"}}},
-		&gen.EStr{"a"}, &gen.EStr{"abc"}, &gen.EStr{""}, &gen.EStr{"12"}, &gen.EStr{"2"}, &gen.EStr{"b"},
+		&gen.EStr{"a"}, &gen.EStr{"abc"}, &gen.EStr{""}, &gen.EStr{"12"}, &gen.EStr{"2"}, &gen.EStr{"b"}, &gen.EStr{"+5"}, &gen.EStr{"-3"}, &gen.EStr{"+0.5"},
 		&gen.EBool{true}, &gen.EBool{false}, &gen.ENull{},
 		&gen.EArr{[]gen.Expr{&gen.ENum{"1"}, &gen.ENum{"2"}}}, &gen.EArr{nil}, &gen.EArr{[]gen.Expr{&gen.EStr{"a"}, &gen.EStr{"b"}}},
 		&gen.EGroup{&gen.EHash{[]gen.Expr{&gen.EStr{"k"}}, []gen.Expr{&gen.ENum{"2"}}}},
